@@ -27,7 +27,7 @@ PROP = dict(
          "(mu*max||u||^2 >= 2) keep the identities but skip the reference comparison (counted in path_histogram), RLS comparisons stop once the "
          "Frobenius condition estimate of the reference exceeds 1e6 (counted; DESIGN said 1e8, but the double recursion errs like cond*eps and the dense box left only a 3.6x margin there)",
     bounds=dict(
-        quick="{LMS mu{0.01,0.1,0.5} x leak{1,0.999,0.9}; NLMS mu{0.01,0.1,0.5,1} x leak{1,0.999,0.9}; RLS lambda{0.9,0.95,0.99,1} x delta{1e-2,1,1e2,1e4}} "
+        quick="{LMS mu{0.01,0.1,0.5} x leak{1,0.999,0.9}; NLMS mu{0.01,0.1,0.5,1} x leak{1,0.999,0.9}; RLS lambda{0.9,0.95,0.99,0.9995,1} x delta{1e-2,1,1e2,1e4}} "
               "x {real,complex} x len{2,3,4,8,16} x x-letters{LCG white, sinusoid, impulse train} x d-letters{system impulse, decaying/rotating, dense, independent}, "
               "horizon 32, one sample per call; adapt.long: 8 parameter sets (LMS, NLMS, RLS lambda{0.9,0.95,0.99}) x len{2,4,8} x real/complex x white input x "
               "{dense system, independent d}, 200 unlocked samples on one object against the long-double recursion, plus geometric-factor horizons > 1.2*745/|ln f|: "
@@ -38,7 +38,7 @@ PROP = dict(
               "real and complex, fed (a) in one call and (b) in frames of 1000, every y/e sample and every coeffs() read against the long-double recursion; "
               "convergence: len 2..16, 32, 64 x NLMS(mu 1, leak 1; 40*len samples) / RLS(lambda 1, delta 1e4; 4*len samples) x real/complex x 3 systems x system length {len, len/2, 1}",
         thorough="adapt.step / rls.batch: dense box {LMS mu{0.005,0.01,0.05,0.1,0.2,0.5} x leak{1,0.9999,0.999,0.99,0.9}; NLMS mu{0.01,0.05,0.1,0.25,0.5,1,1.5} x the same leaks; "
-                 "RLS lambda{0.9,0.95,0.98,0.99,0.999,1} x delta{1e-2,1e-1,1,10,1e2,1e3,1e4}} (107 configurations) x real/complex x "
+                 "RLS lambda{0.9,0.95,0.98,0.99,0.999,0.9992,0.9995,0.9999,1} x delta{1e-2,1e-1,1,10,1e2,1e3,1e4}} (107 configurations) x real/complex x "
                  "len{2,3,4,5,6,7,8,10,12,16,20,24,32,40,48,64} x 12 letter pairs, horizon 64; adapt.long with len{2,3,4,8,16} and 1000 samples and (f, horizon) up to (0.99, 90000); "
                  "adapt.stream with len{2,4,8} and frames {one call, 1000, 4097, 65536}; histories (each = all framings x all 2^frames lock schedules x 3 read policies + a rejected "
                  "call at every boundary, x' longer and shorter): design box x len{2,3,4} x 4 letter pairs x {6 granules of 1, 2, 3 samples; 7 granules of 2 (2^7 granule lock patterns, "
